@@ -21,13 +21,18 @@ from common import (CASES_HEADER, REPO, RUN, VERIF, Check, clist, coq_eval, cz,
                     parse_coq_list, run_impl)
 
 KINDS = ["passive_pnm", "gaussian_pnm", "gaussian_threshold_tor", "gaussian_homodyne",
-         "purefock_pnm", "fock_pnm", "purefock_homodyne", "fermionic_fock_pnm"]
+         "purefock_pnm", "fock_pnm", "purefock_homodyne", "fermionic_fock_pnm",
+         "gaussian_pnm1", "gaussian_threshold_haf1"]
 SOURCE = {"passive_pnm": "PerShot", "gaussian_pnm": "PerShot",
           "gaussian_threshold_tor": "OwnedNp", "gaussian_homodyne": "OwnedNp",
           "purefock_pnm": "PyDraw", "fock_pnm": "PyDraw", "purefock_homodyne": "OwnedNp",
-          "fermionic_fock_pnm": "PyDraw"}
+          "fermionic_fock_pnm": "PyDraw", "gaussian_pnm1": "PerShot",
+          "gaussian_threshold_haf1": "PerShot"}
+# the kinds with a dask branch (per-shot seeds), run with shot counts around chunk sizes
+DASK_KINDS = ["passive_pnm", "gaussian_pnm1", "gaussian_threshold_haf1"]
+CHUNK_SHOTS = [1, 2, 63, 64, 65, 130, 257]
 # kinds whose generator does not depend on options of the Config (usable with Simulator(d))
-DEFAULT_OK = [k for k in KINDS if k != "gaussian_threshold_tor"]
+DEFAULT_OK = [k for k in KINDS if "threshold" not in k]
 KEY_SEED0 = "C11:Config.__init__:seed_sequence=0"
 KEY_GLOBAL = "C11:sample_from_probability_map:global-random-state"
 KEY_HC0 = "C11:permanent_cpp:hardware_concurrency=0"
@@ -54,6 +59,11 @@ class Hist:
         # config.rng request this generator serves (requests of different kinds may consume
         # the same number of raw values, which the model cannot know)
         self.cfg.append({"seed": seed, "users": 0, "gen": {"np_kind": None}})
+
+    def set_seed(self, c, z):
+        """configs[c].seed_sequence = z after construction: new generators for this object"""
+        self.ops.append(["SetSeed", c, z])
+        self.cfg[c] = {"seed": z, "users": 0, "gen": {"np_kind": None}}
 
     def copy_config(self, c):
         self.ops.append(["CopyConfig", c])
@@ -118,8 +128,35 @@ def noise(h, rng, n):
                 else:
                     h.new_sim(c, rng.choice(KINDS))
                     h.execute(len(h.sim) - 1, 10)
+        elif k < 0.93 and h.cfg:
+            cand = [i for i, c in enumerate(h.cfg) if c["users"] > 0]
+            if cand:
+                h.set_seed(rng.choice(cand), rng.choice([0, 1, 7]))
         else:
             h.global_draw()
+
+
+def chunk_histories(thorough):
+    """Per-shot-seed kinds with shot counts on both sides of plausible chunk sizes; for 65
+    shots a second fresh simulator with the same seed after unrelated activity."""
+    out = []
+    for kind in DASK_KINDS:
+        for shots in CHUNK_SHOTS:
+            if shots > 130 and kind != "passive_pnm" and not thorough:
+                continue
+            h = Hist()
+            h.new_config(3)
+            h.new_sim(0, kind)
+            h.execute(0, shots)
+            if shots == 65:
+                h.global_draw()
+                h.new_config(None)
+                h.new_config(3)
+                h.repr_config("config")
+                h.new_sim(2, kind)
+                h.execute(1, shots)
+            out.append(h)
+    return out
 
 
 def gen_history(rng, kinds, blocks):
@@ -128,7 +165,14 @@ def gen_history(rng, kinds, blocks):
         kind = rng.choice(kinds)
         z = rng.choice([0, 1, 1, 7, 7, None])
         noise(h, rng, rng.randint(0, 2))
-        h.new_config(z)
+        if z is not None and rng.random() < 0.35:
+            # the seed arrives through the setter, after construction
+            h.new_config(rng.choice([None, 1, 7, 9]))
+            c = len(h.cfg) - 1
+            noise(h, rng, rng.randint(0, 1))
+            h.set_seed(c, z)
+        else:
+            h.new_config(z)
         c = len(h.cfg) - 1
         noise(h, rng, rng.randint(0, 3))
         h.new_sim(c, kind)
@@ -165,6 +209,8 @@ def corpus_histories():
                 h.global_draw()
             elif op[0] == "ReprConfig":
                 h.repr_config(op[1])
+            elif op[0] == "SetSeed":
+                h.set_seed(op[1], op[2])
         h.name = rec.get("name")
         out.append(h)
     return out
@@ -184,6 +230,8 @@ def coq_op(op):
         return "GlobalDraw (0%nat, 1%nat)"
     if n == "ReprConfig":
         return "ReprConfig"
+    if n == "SetSeed":
+        return "SetSeed %d%%nat %s" % (op[1], cz(op[2]))
     raise ValueError(n)
 
 
@@ -201,21 +249,15 @@ def coq_hist(h):
     return "[" + "; ".join(items) + "]"
 
 
-def pattern_of(results):
-    seen = []
-    pat = []
-    for r in results:
-        key = json.dumps(r)
-        if key in seen:
-            pat.append(seen.index(key))
-        else:
-            seen.append(key)
-            pat.append(len(seen) - 1)
-    # index of the first equal result, as in RngModel.pattern
+def pattern_of(results, execs=None):
+    """index of the first equal result, as in RngModel.pattern; results of different requests
+    (kind, default config, shots) are never equal in the model, so they are not compared
+    here either (short sample lists of different programs can coincide by chance)"""
     first = {}
     out = []
     for i, r in enumerate(results):
-        key = json.dumps(r)
+        tag = [execs[i]["kind"], execs[i]["default"], execs[i]["shots"]] if execs else None
+        key = json.dumps([tag, r])
         first.setdefault(key, i)
         out.append(first[key])
     return out
@@ -229,7 +271,7 @@ def part_a(chk, corr_broken):
     blocks = 6 if T else 4
     worlds = []
     for w in range(nworlds):
-        hs = (corpus_histories() if w == 0 else [])
+        hs = (corpus_histories() + chunk_histories(T) if w == 0 else [])
         # every second history uses only the simulators that own their streams, so that a
         # defect of the global-state kind cannot mask everything else
         owned = [k for k in KINDS if SOURCE[k] != "PyDraw"]
@@ -287,7 +329,8 @@ Definition worlds : list (list (list op)) := [%s].
     diffs = []
     for w in range(nworlds):
         flat = [r for hist in base[w]["results"] for r in hist]
-        pat = pattern_of(flat)
+        execs = [e for h in worlds[w] for e in h.exec]
+        pat = pattern_of(flat, execs if len(execs) == len(flat) else None)
         nres += len(flat)
         nontriv += sum(1 for i, p in enumerate(pat) if p != i)
         execs = [e for h in worlds[w] for e in h.exec]
@@ -323,7 +366,8 @@ Definition worlds : list (list (list op)) := [%s].
             kind = execs[idx]["kind"] if idx is not None and idx < len(execs) else "?"
             chk.violation("C11:%s:dask=%s,threads=%s" % (kind, dask, threads),
                           "samples differ between the sequential run and the run with use_dask=%s, %s thread(s)" % (dask, threads),
-                          {"world": w, "result_index": idx, "sequential": a[idx] if idx is not None else None,
+                          {"world": w, "result_index": idx, "execution": execs[idx] if idx is not None and idx < len(execs) else None,
+                           "sequential": a[idx] if idx is not None else None,
                            "other": b[idx] if idx is not None else None,
                            "histories": [h.ops for h in worlds[w]]})
     chk.stream("same histories with use_dask=True and NUMBA_NUM_THREADS = OMP_NUM_THREADS = 1 (thorough: also 5) instead of 2: identical samples",
